@@ -30,6 +30,7 @@ type Prov struct {
 	Bind      string // interface type bound to this provider ("" = none)
 	BindOuter bool   // true: Bind(Async(..)); false: Async(Bind(..))
 	Set       int    // 0 = listed directly in Inject; k>0 = member of Set k
+	ErrAlias  bool   // the error result is spelled through an alias (type Failure = error)
 }
 
 func (p *Prov) Name() string { return fmt.Sprintf("P%d", p.ID) }
@@ -78,6 +79,9 @@ func (d *Decl) Spec() string {
 		}
 		if p.Fallible {
 			fl = append(fl, "fallible")
+		}
+		if p.ErrAlias {
+			fl = append(fl, "err-alias")
 		}
 		if p.Bind != "" {
 			if p.BindOuter {
